@@ -208,3 +208,9 @@ package storage
 //@     before call (*keys.Digest).Write args _, bs : assert built == 3
 //@     after call (*keys.Digest).Sum64 returning s : suffix = s
 //@   ensures @fields k.data == encString("IC") + encString("RSWU") + encString(store) + encString(filter.ObjectType) + encString(filter.Relation) + encUint64(suffix)
+
+// an invalid write or delete is always reported as an error
+//@ func InvalidWriteInputError(tk, operation) (err)
+//@   property C12 C31 C16
+//@   option nosafety
+//@   ensures @nonNil (operation == openfgav1.TupleOperation_TUPLE_OPERATION_WRITE || operation == openfgav1.TupleOperation_TUPLE_OPERATION_DELETE) ==> err != nil
